@@ -468,6 +468,8 @@ class Interp:
         if isinstance(f, tuple) and f and f[0] == 'classmeth':
             _, cref, name = f
             return self.call_function(self.classes[cref.name]['methods'][name], [cref] + args, kwargs)
+        if callable(f):
+            return f(*args)
         raise Unsupported("call of %s" % type(f).__name__)
 
     def to_vec(self, v):
